@@ -29,13 +29,14 @@ Section Hoist.
       fisfunc (fst (a_hoist (fid fr) l Pc lg)) = fisfunc P /\
       fdecl (fst (a_hoist (fid fr) l Pc lg)) = fdecl P /\
       (forall e, In e (fund Pc) -> In e (fund (fst (a_hoist (fid fr) l Pc lg)))) /\
+      (forall y, In (UPend y) (fund (fst (a_hoist (fid fr) l Pc lg))) -> In (UPend y) (fund Pc) \/ In (UPend y) l) /\
       (forall s y, In (LPend s y) (snd (a_hoist (fid fr) l Pc lg)) ->
          exists fp, In fp ((fst (a_hoist (fid fr) l Pc lg), prP) :: rest) /\ fid (fst fp) = s /\ In (UPend y) (fund (fst fp))) /\
       map (final e1) (snd (a_hoist (fid fr) l Pc lg)) = map (final e1) lg.
   Proof.
     induction l as [|[x|x fs] l' IH]; intros Pc lg K Hfid Hisf Hfd Hnot Hnd Hlog.
     - cbn [a_hoist fst snd]. split; [exact K|]. split; [exact Hfid|]. split; [exact Hisf|]. split; [exact Hfd|].
-      split; [tauto|]. split; [|reflexivity].
+      split; [tauto|]. split; [intros y Hy; left; exact Hy|]. split; [|reflexivity].
       intros s y H. destruct (Hlog s y H) as [[_ []]|Hex]. exact Hex.
     - (* an unresolved use of the closing scope *)
       assert (Hx : ~ In x (pnames pr)) by (apply Hnot; left; reflexivity).
@@ -64,23 +65,26 @@ Section Hoist.
       destruct (a_find_decl Pc x) as [[y k]|] eqn:Ed.
       + (* declared in the parent *)
         destruct (a_find_decl_some _ _ _ _ Ed) as [-> Hin]. destruct (K_decl _ _ _ K x k Hin) as [Hp _].
-        destruct (IH Pc (relabel (LPend (fid fr) x) (LDecl (fid Pc) x) lg) K Hfid Hisf Hfd Hnot' Hnd') as (H1 & H2 & H3 & H4 & H5 & H6 & H7).
+        destruct (IH Pc (relabel (LPend (fid fr) x) (LDecl (fid Pc) x) lg) K Hfid Hisf Hfd Hnot' Hnd') as (H1 & H2 & H3 & H4 & H5 & H5b & H6 & H7).
         { apply (Hstep (LDecl (fid Pc) x) Pc); [tauto|reflexivity|discriminate]. }
-        split; [exact H1|]. split; [exact H2|]. split; [exact H3|]. split; [exact H4|]. split; [exact H5|]. split; [exact H6|].
+        split; [exact H1|]. split; [exact H2|]. split; [exact H3|]. split; [exact H4|]. split; [exact H5|].
+        split; [intros y0 Hy0; destruct (H5b y0 Hy0) as [G|G]; [left; exact G|right; right; exact G]|]. split; [exact H6|].
         rewrite H7. apply final_relabel. rewrite Hfinal_from. cbn [final]. rewrite Hfid. symmetry. apply lookup_head. exact Hp.
       + destruct (a_find_und Pc x) as [[y|y fs]|] eqn:Eu.
         * (* used before in the parent *)
           destruct (a_find_und_some _ _ _ Eu) as [Hin Hn]. cbn in Hn. subst y.
-          destruct (IH Pc (relabel (LPend (fid fr) x) (LPend (fid Pc) x) lg) K Hfid Hisf Hfd Hnot' Hnd') as (H1 & H2 & H3 & H4 & H5 & H6 & H7).
+          destruct (IH Pc (relabel (LPend (fid fr) x) (LPend (fid Pc) x) lg) K Hfid Hisf Hfd Hnot' Hnd') as (H1 & H2 & H3 & H4 & H5 & H5b & H6 & H7).
           { apply (Hstep (LPend (fid Pc) x) Pc); [tauto|reflexivity|]. intros s y E. inversion E; subst. split; [reflexivity|exact Hin]. }
-          split; [exact H1|]. split; [exact H2|]. split; [exact H3|]. split; [exact H4|]. split; [exact H5|]. split; [exact H6|].
+          split; [exact H1|]. split; [exact H2|]. split; [exact H3|]. split; [exact H4|]. split; [exact H5|].
+          split; [intros y0 Hy0; destruct (H5b y0 Hy0) as [G|G]; [left; exact G|right; right; exact G]|]. split; [exact H6|].
           rewrite H7. apply final_relabel. rewrite Hfinal_from, Hfinal_P. reflexivity.
         * (* a declaration passed through the parent *)
           destruct (a_find_und_some _ _ _ Eu) as [Hin Hn]. cbn in Hn. subst y.
           destruct (K_pass _ _ _ K x fs Hin) as [_ Hp].
-          destruct (IH Pc (relabel (LPend (fid fr) x) (LDecl fs x) lg) K Hfid Hisf Hfd Hnot' Hnd') as (H1 & H2 & H3 & H4 & H5 & H6 & H7).
+          destruct (IH Pc (relabel (LPend (fid fr) x) (LDecl fs x) lg) K Hfid Hisf Hfd Hnot' Hnd') as (H1 & H2 & H3 & H4 & H5 & H5b & H6 & H7).
           { apply (Hstep (LDecl fs x) Pc); [tauto|reflexivity|discriminate]. }
-          split; [exact H1|]. split; [exact H2|]. split; [exact H3|]. split; [exact H4|]. split; [exact H5|]. split; [exact H6|].
+          split; [exact H1|]. split; [exact H2|]. split; [exact H3|]. split; [exact H4|]. split; [exact H5|].
+          split; [intros y0 Hy0; destruct (H5b y0 Hy0) as [G|G]; [left; exact G|right; right; exact G]|]. split; [exact H6|].
           rewrite H7. apply final_relabel. rewrite Hfinal_from. cbn [final]. symmetry.
           rewrite <- (lookup_pass x fs ((Pc, prP) :: rest) Hp). apply f_equal2; [|reflexivity].
           cbn [env_of map fst snd]. rewrite Hfid. reflexivity.
@@ -92,19 +96,28 @@ Section Hoist.
               inversion Hy; subst. apply a_find_decl_none. exact Ed.
             - intros y fs Hy. cbn [fund Pn set_fund] in Hy. apply in_app_last in Hy. destruct Hy as [Hy|Hy]; [|discriminate]. exact (K4 y fs Hy).
             - cbn [fund Pn set_fund]. rewrite pend_names_app. cbn. apply nodup_app_last; [exact K6|].
-              intros Hin. apply in_pend_names in Hin. apply (a_find_und_none _ _ Eu _ Hin). reflexivity. }
-          destruct (IH Pn (relabel (LPend (fid fr) x) (LPend (fid Pc) x) lg) Kn Hfid Hisf Hfd Hnot' Hnd') as (H1 & H2 & H3 & H4 & H5 & H6 & H7).
+              intros Hin. apply in_pend_names in Hin. apply (a_find_und_none _ _ Eu _ Hin). reflexivity.
+            - cbn [fund fnarg Pn set_fund]. destruct K7 as [K7a K7b]. split; [rewrite app_length; lia|].
+              rewrite firstn_app. replace (fnarg Pc - length (fund Pc))%nat with O by lia. cbn [firstn]. rewrite app_nil_r. exact K7b. }
+          destruct (IH Pn (relabel (LPend (fid fr) x) (LPend (fid Pc) x) lg) Kn Hfid Hisf Hfd Hnot' Hnd') as (H1 & H2 & H3 & H4 & H5 & H5b & H6 & H7).
           { apply (Hstep (LPend (fid Pc) x) Pn).
             - intros e He. cbn. apply in_app_last. left. exact He.
             - reflexivity.
             - intros s y E. inversion E; subst. split; [reflexivity|]. cbn. apply in_app_last. right. reflexivity. }
           split; [exact H1|]. split; [exact H2|]. split; [exact H3|]. split; [exact H4|].
-          split; [intros e He; apply H5; cbn; apply in_app_last; left; exact He|]. split; [exact H6|].
+          split; [intros e He; apply H5; cbn; apply in_app_last; left; exact He|].
+          split.
+          { intros y0 Hy0. destruct (H5b y0 Hy0) as [G|G]; [|right; right; exact G].
+            cbn [fund Pn set_fund] in G. apply in_app_last in G. destruct G as [G|G]; [left; exact G|right; left; symmetry; exact G]. }
+          split; [exact H6|].
           rewrite H7. apply final_relabel. rewrite Hfinal_from, Hfinal_P. reflexivity.
     - (* a declaration passed through the closing scope *)
-      cbn [a_hoist]. apply IH; try assumption.
+      cbn [a_hoist].
+      destruct (IH Pc lg K Hfid Hisf Hfd) as (H1 & H2 & H3 & H4 & H5 & H5b & H6 & H7); try assumption.
       + intros y Hy. apply Hnot. right. exact Hy.
       + intros s y H. destruct (Hlog s y H) as [[Hs [Hy|Hy]]|Hex]; [discriminate|left; split; assumption|right; exact Hex].
+      + split; [exact H1|]. split; [exact H2|]. split; [exact H3|]. split; [exact H4|]. split; [exact H5|].
+        split; [intros y0 Hy0; destruct (H5b y0 Hy0) as [G|G]; [left; exact G|right; right; exact G]|]. split; assumption.
   Qed.
 End Hoist.
 
@@ -116,6 +129,7 @@ Lemma L_exit a fr pr P prP rest :
     a_exit a = ARun a' /\ AInv a' ((P', prP) :: rest) /\
     fid P' = fid P /\ fisfunc P' = fisfunc P /\ fdecl P' = fdecl P /\
     (forall e, In e (fund P) -> In e (fund P')) /\
+    (forall y, In (UPend y) (fund P') -> In (UPend y) (fund P) \/ In (UPend y) (fund fr)) /\
     anext a' = anext a /\
     map (final (env_of ((P, prP) :: rest))) (alog a') = map (final (env_of ((fr, pr) :: (P, prP) :: rest))) (alog a).
 Proof.
@@ -123,7 +137,7 @@ Proof.
   assert (HPfr : (fid P < fid fr)%nat) by (apply (K_fid _ _ _ Kfr (P, prP)); left; reflexivity).
   assert (Hrestfr : forall g, In g rest -> (fid (fst g) < fid fr)%nat) by (intros g Hg; apply (K_fid _ _ _ Kfr g); right; exact Hg).
   destruct (hoist_ok fr pr P prP rest HPfr (fund fr) P (alog a) KP eq_refl eq_refl eq_refl)
-    as (H1 & H2 & H3 & H4 & H5 & H6 & H7).
+    as (H1 & H2 & H3 & H4 & H5 & H5b & H6 & H7).
   { intros y Hy Hin. apply (K_pend _ _ _ Kfr y Hy). apply Hfull. exact Hin. }
   { apply (K_pnodup _ _ _ Kfr). }
   { intros s y H. destruct (Al s y H) as (fp & Hfp & Hs & Hu). destruct Hfp as [<-|Hfp].
@@ -139,7 +153,7 @@ Proof.
       + rewrite H2. apply (An (P, prP)). right. left. reflexivity.
       + apply An. right. right. exact Hfp.
     - exact H6. }
-  split; [exact H2|]. split; [exact H3|]. split; [exact H4|]. split; [exact H5|]. split; [reflexivity|].
+  split; [exact H2|]. split; [exact H3|]. split; [exact H4|]. split; [exact H5|]. split; [exact H5b|]. split; [reflexivity|].
   cbn [alog]. rewrite <- H7.
   (* no entry of the closed scope is left: the meaning of the remaining labels does not depend on it *)
   apply map_ext_in. intros l Hl. destruct l as [s y|s y]; [reflexivity|].
